@@ -7,6 +7,7 @@ import (
 	"math/rand"
 	"testing/iotest"
 
+	"github.com/crate-crypto/go-ipa/bandersnatch"
 	"github.com/crate-crypto/go-ipa/banderwagon"
 	"github.com/crate-crypto/go-ipa/common"
 
@@ -46,6 +47,16 @@ func c06compressed(c *mon.Ctx, b []byte, cls string, rng *rand.Rand) {
 			mon.Try(func() { t.SetBytesUncompressed(append(append([]byte(nil), b...), b...), true) })
 		}
 		c.Count("trusted_decode_before_untrusted", 1)
+	}
+	// ... or the lower-level point recovery is used first (x = 0 and the input itself, both sign choices)
+	if rng.Intn(5) == 0 {
+		for _, xv := range []*big.Int{new(big.Int), new(big.Int).Mod(ref.FromBE(b), ref.P)} {
+			xe := FpFromBig(xv)
+			if p := bandersnatch.GetPointFromX(&xe, rng.Intn(2) == 0); p != nil {
+				p.Y.SetUint64(3) // the result is ours
+			}
+		}
+		c.Count("point_recovery_before_decode", 1)
 	}
 	want, werr := ref.Deserialize(b)
 	verdict := "accept"
@@ -205,6 +216,18 @@ func c06offCurveX(rng *rand.Rand) *big.Int {
 }
 
 func runC06(c *mon.Ctx) {
+	if c.Mine(0) {
+		c.Case("y-adjacent-to-thresholds", func() {
+			rng := c.Rand("thresholds")
+			for _, x := range c17thresholdXs() {
+				c06compressed(c, be32(x), "y-adjacent-to-threshold", rng)
+				if yL, yS, ok := ref.YFromX(x); ok {
+					c06uncompressed(c, append(be32(x), be32(yL)...), "u:y-adjacent-to-threshold,ylarge", rng)
+					c06uncompressed(c, append(be32(x), be32(yS)...), "u:y-adjacent-to-threshold,ysmall", rng)
+				}
+			}
+		})
+	}
 	pool := NewPool(c.Rand("pool"), 48)
 	nb := c.Pick(96, 8000)
 	for b := 0; b < nb; b++ {
